@@ -51,9 +51,10 @@ const (
 	SpParen                    // (T) / (d.T) where a parenthesised type is admissible
 	SpPtrAlias                 // type APT = *d.T used where a pointer is written
 	SpDotImport                // import . "ex.com/m/d"; T   (importing packages of the use universe only)
+	SpBodyAlias                // type BMock = d.Mock declared INSIDE each function body that uses it (use universe only)
 )
 
-var SpellNames = []string{"direct", "local-alias", "third-pkg-alias", "renamed-import", "paren", "ptr-alias", "dot-import"}
+var SpellNames = []string{"direct", "local-alias", "third-pkg-alias", "renamed-import", "paren", "ptr-alias", "dot-import", "body-alias"}
 
 // EnclKind is the kind of top-level declaration that encloses a group of sites.
 type EnclKind int
@@ -175,7 +176,7 @@ type Block struct {
 
 func (b Block) String() string { return fmt.Sprintf("%s@%d", b.Encl, b.File) }
 
-var FileNames = []string{"a.go", "b.go", "c_test.go", "n.go"} // n.go: a file of the importing package that does not import d itself
+var FileNames = []string{"a.go", "b_Test.go", "c_test.go", "n.go"} // b_Test.go: a REGULAR file (the test suffix is case-sensitive); // n.go: a file of the importing package that does not import d itself
 
 // SiteInst is a rendered site.
 type SiteInst struct {
